@@ -225,9 +225,15 @@ def run_shard(spec, ctx):
         if spec.get("do_E") and i == 0 and "scipy_minimize" not in algos and kind not in ("joint", "mixture_logistic"):
             algos = ["scipy_minimize"] + algos
 
+        long_adaptive = bool((spec["k"] + i) % 2)
+
         def perso(dataset, name, **extra):
             kws = dict(seed=seed_p, progress_bar=False)
             kws.update(dict(use_jacobian=False) if name == "scipy_minimize" else dict(n_iter=15, n_burn_in_iter=5))
+            if name != "scipy_minimize" and long_adaptive:
+                # chains long enough for the per-individual proposal scales to adapt several times (window 5 instead of 25)
+                kws.update(n_iter=70, n_burn_in_iter=20, sampler_ind_params={
+                    "acceptation_history_length": 5, "mean_acceptation_rate_target_bounds": [0.2, 0.4], "adaptive_std_factor": 0.3})
             kws.update(extra)
             with contextlib.redirect_stdout(io.StringIO()):
                 idx, d = model.personalize(dataset, name, **kws).to_pytorch()
@@ -250,6 +256,8 @@ def run_shard(spec, ctx):
                          f"{name}: the target's '{pn}' changed when only other individuals' observations changed",
                          A=pA[pn][ra].tolist(), B=pB[pn][rb].tolist())
             ctx.distinct(case["model"], "B", "personalize", name)
+            if name != "scipy_minimize" and long_adaptive:
+                ctx.count("rel_B_personalize_adaptive_chains")
             if tpos == 0 and dsC is not None and name == "scipy_minimize":
                 try:
                     idxC, pC = perso(dsC, name)
